@@ -58,10 +58,20 @@ def install(M):
         "std::vec::Vec::<T, A>::as_mut_slice": M.m_identity,
         "core::array::<impl [T; N]>::as_slice": M.m_identity,
         "std::mem::size_of": X.size_of,
+        "core::bool::<impl bool>::then": X.b_then,
+        "core::bool::<impl bool>::then_some": X.b_then_some,
+        opt + "take": X.opt_take,
+        opt + "replace": X.opt_replace,
+        "std::iter::Iterator::take": X.it_take,
+        "std::iter::Iterator::take_while": X.it_take_while,
+        "std::iter::Iterator::collect": M.m_from_iter,
+        "std::array::<impl std::convert::TryFrom<&[T]> for [T; N]>::try_from": X.arr_try_from,
+        "std::array::<impl std::convert::TryFrom<&'a [T]> for &'a [T; N]>::try_from": X.arr_try_from,
         "std::iter::Iterator::rev": X.it_rev,
         "std::iter::Iterator::skip": X.it_skip,
         "std::iter::Iterator::last": X.it_last,
         "std::iter::Iterator::sum": X.it_sum,
+        "std::iter::Iterator::try_fold": X.it_try_fold,
         "std::iter::Iterator::nth": X.it_nth,
         "std::iter::Iterator::cloned": lambda e, st, a: M.adapt("copied", e, st, a),
         "std::iter::DoubleEndedIterator::next_back": X.it_next_back,
@@ -501,7 +511,99 @@ class Ext:
                 return [(st, "val", IntV(INT_BITS[t["s"]] // 8, "usize"))]
         return None
 
+    # ------------------------------------------------------------ bool / Option cells / arrays
+    def b_then(self, e, st, a):
+        sp = self._bool_split(st, a[0])
+        if sp is None:
+            return None
+        out = []
+        for s, b in sp:
+            if b:
+                out += self._apply(s, a[1], [], e, some)
+            else:
+                out.append((s, "val", NONE))
+        return out
+
+    def b_then_some(self, e, st, a):
+        sp = self._bool_split(st, a[0])
+        if sp is None:
+            return None
+        return [(s, "val", some(a[1]) if b else NONE) for s, b in sp]
+
+    def opt_take(self, e, st, a):
+        r = a[0]
+        if not isinstance(r, RefV):
+            return None
+        out = []
+        for s, sv in self._opt(st, self.I.read_loc(st, r.key, r.path), e):
+            self.I.write_loc(s, r.key, r.path, NONE)
+            out.append((s, "val", sv))
+        return out
+
+    def opt_replace(self, e, st, a):
+        r = a[0]
+        if not isinstance(r, RefV):
+            return None
+        out = []
+        for s, sv in self._opt(st, self.I.read_loc(st, r.key, r.path), e):
+            self.I.write_loc(s, r.key, r.path, some(a[1]))
+            out.append((s, "val", sv))
+        return out
+
+    def arr_try_from(self, e, st, a):
+        v = self._slice(st, a[0])
+        rt = self.I.F.types[e["t"]]
+        if rt.get("def") != "std::result::Result" or not isinstance(v, (SliceV, ArrV)):
+            return None
+        okt = self.I.F.types[self.I.F.strip_ref(rt["args"][0])]
+        if okt["k"] != "array" or okt["len"] is None:
+            return None
+        n = okt["len"]
+        out = []
+        for s in self.I.assume(st, flit(eq(v.length(), n))):
+            out.append((s, "val", ok(SliceV(v.base, v.start, v.start + n) if isinstance(v, SliceV) else v)))
+        for s in self.I.assume(st, flit(ne(v.length(), n))):
+            out.append((s, "val", err(Opaque("TryFromSliceError"))))
+        return out
+
     # ------------------------------------------------------------ iterators
+    def it_take(self, e, st, a):
+        it = self._iter(st, a[0])
+        if it is None and isinstance(self._slice(st, a[0]), StructV):
+            return None
+        if it is None or not isinstance(a[1], IntV):
+            return None
+        n = self.I.loops.count_of(st, it.seq)
+        if n is None:
+            return None
+        lim = it.pos + a[1].l
+        # fewer elements than asked for: `take` changes nothing; otherwise the sequence ends at pos + n
+        out = []
+        for s in self.I.assume(st, flit(gt(lim, n))):
+            out.append((s, "val", it))
+        for s in self.I.assume(st, flit(le(lim, n))):
+            sq = it.seq
+            # canonical form: the first `lim` chunks / bytes of a slice are the chunks / bytes of a shorter slice
+            if sq[0] == "chunks" and sq[2].is_const() and sq[2].c > 0:
+                sl = sq[1]
+                out.append((s, "val", IterV(("chunks", SliceV(sl.base, sl.start, sl.start + lim.scale(sq[2].c)), sq[2]), it.pos)))
+            elif sq[0] == "bytes":
+                sl = sq[1]
+                out.append((s, "val", IterV(("bytes", SliceV(sl.base, sl.start, sl.start + lim)), it.pos)))
+            else:
+                out.append((s, "val", IterV(("take", sq, lim), it.pos)))
+        return out
+
+    def it_take_while(self, e, st, a):
+        it = self._iter(st, a[0])
+        if it is None:
+            return None
+        if self.I.loops.count_of(st, it.seq) is None or not (it.pos.is_const() and it.pos.c == 0):
+            return None
+        seq = ("take_while", it.seq, a[1])
+        st.pc.append(le(self.I.loops.count_of(st, seq), self.I.loops.count_of(st, it.seq)))
+        return [(st, "val", IterV(seq))]
+
     def _iter(self, st, v):
         if isinstance(v, RefV):
             v = self.I.read_loc(st, v.key, v.path)
@@ -564,20 +666,73 @@ class Ext:
         return out
 
     def it_sum(self, e, st, a):
-        it = self._iter(st, a[0])
+        """Iterator::sum for integers, and for Result<integer, E> (the first Err ends the summation)"""
+        rt = self.I.F.types[e["t"]]
         ty = self.I.int_ty(e)
-        if it is None or ty is None:
+        is_res = rt.get("def") == "std::result::Result"
+        if is_res:
+            okt = self.I.F.types[rt["args"][0]]
+            ty = okt["s"] if okt["k"] == "int" else None
+        if ty is None:
             return None
 
-        def add(s, args, e2):
-            acc, x = args
+        def step(s, acc, x):
             if isinstance(x, RefV):
                 x = self.I.read_loc(s, x.key, x.path)
-            if not (isinstance(acc, IntV) and isinstance(x, IntV)):
-                return [(s, "val", Opaque("sum of non-integers"))]
-            return [(s2, "val", v) for s2, v in self.I.binop(s, "Add", acc, IntV(x.l, acc.ty), e, acc.ty)]
+            outs = []
+            alts = [(s, x)]
+            if is_res:
+                alts = []
+                for s2, sv in self._res(s, x, e):
+                    if sv.variant == "Err":
+                        outs.append((s2, "out", sv))
+                    else:
+                        alts.append((s2, sv.fields["0"]))
+            for s2, xv in alts:
+                if isinstance(xv, RefV):
+                    xv = self.I.read_loc(s2, xv.key, xv.path)
+                if not (isinstance(acc, IntV) and isinstance(xv, IntV)):
+                    outs.append((s2, "val", Opaque("sum of non-integers")))
+                    continue
+                outs += [(s3, "val", v) for s3, v in self.I.binop(s2, "Add", acc, IntV(xv.l, acc.ty), e, acc.ty)]
+            return outs
 
-        return self.I.loops.fold(e, st, it, IntV(0, ty), PyFn(add, "sum"))
+        r = self.I.loops.py_for(e, st, a[0], IntV(0, ty), step)
+        if r is None:
+            return None
+        out = []
+        for s, k, v, exhausted in r:
+            if k != "val":
+                out.append((s, k, v))
+            elif is_res and exhausted:
+                out.append((s, "val", ok(v)))
+            else:
+                out.append((s, "val", v))
+        return out
+
+    def it_try_fold(self, e, st, a):
+        """Iterator::try_fold with a Result/Option-returning closure"""
+        def step(s, acc, x):
+            outs = []
+            for s2, k, r in self.I.apply_fn(s, a[2], [acc, x], e):
+                if k != "val":
+                    outs.append((s2, k, r))
+                elif isinstance(r, StructV) and r.variant in ("Ok", "Some"):
+                    outs.append((s2, "val", r.fields["0"]))
+                elif isinstance(r, StructV) and r.variant in ("Err", "None"):
+                    outs.append((s2, "out", r))
+                else:
+                    return None
+            return outs
+
+        rt = self.I.F.types[e["t"]]
+        wrap = ok if rt.get("def") == "std::result::Result" else (some if rt.get("def") == "std::option::Option" else None)
+        if wrap is None:
+            return None
+        r = self.I.loops.py_for(e, st, a[0], a[1], lambda s, acc, x: step(s, acc, x) or [(s, "val", Opaque("try_fold"))])
+        if r is None:
+            return None
+        return [(s, k, (wrap(v) if (k == "val" and exhausted) else v)) for s, k, v, exhausted in r]
 
     def it_next_back(self, e, st, a):
         return None      # would need an end position in IterV: stays unmodelled (fails closed)
